@@ -64,12 +64,69 @@ fn states_of_peer(data: &Value, p: &str, my_unused: &BTreeMap<String, u64>) -> (
     (classes, values)
 }
 
+/// a stream fold may visit equal values (two appends of the same value): instances then share a class
+fn has_stream_fold(ins: &crate::ast::Ins) -> bool {
+    let mut found = false;
+    ins.walk(&mut |i| {
+        if let crate::ast::Ins::Fold { iterable: crate::ast::Val::Var(n), .. } = i {
+            if n.starts_with('$') || n.starts_with('%') {
+                found = true;
+            }
+        }
+    });
+    found
+}
+
 pub fn run(cfg: &Cfg) -> Report {
     let n = cfg.scale(1500, 40000);
     let stats = run_honest(cfg, 5, n, &[Frag::SeqNoFail, Frag::StreamNoFail, Frag::Seq, Frag::Stream], |c, case, _rng, st| {
         let w = &c.world;
         let h = &c.history;
         let failing = h.steps.iter().any(|s| !matches!(s.class(), CodeClass::Success));
+        for s in &h.steps {
+            // the honest host answers only requests that are pending: a result reported as unprocessed
+            // was not recorded at its call (and the exclusion below must not hide that)
+            if s.out.ret_code == 30000 {
+                st.violation("C05", "result-not-recorded@reported-unprocessed", &format!("step {} at {}: the results handed in answer pending requests, but the run reports them as unprocessed: {}", s.idx, w.peers[s.peer].name, proj::trunc(&s.out.error_message, 160)), case, json!({"step": s.idx, "history": history_sample(c, 60)}));
+            }
+        }
+        // at most once, whatever the run codes: a request class (service, function, arguments) names a
+        // call instance unless the script repeats it; the same peer is never asked twice for more
+        // instances than results it could place
+        for p in 0..w.peers.len() {
+            let mut asked: BTreeMap<String, Vec<usize>> = BTreeMap::new();
+            for s in h.steps.iter().filter(|s| s.peer == p) {
+                if let Ok(reqs) = &s.out.requests {
+                    for r in reqs.values() {
+                        asked.entry(class_of_request(r)).or_default().push(s.idx);
+                    }
+                }
+            }
+            if let Some(ins) = &w.script {
+                for (cl, steps) in &asked {
+                    if steps.len() < 2 {
+                        continue;
+                    }
+                    // how many call sites of the script carry this function name (unique per site by
+                    // construction); iterators are trailing arguments, so instances differ in the class
+                    let func = cl.split('|').nth(1).unwrap_or("");
+                    let mut sites = 0;
+                    ins.walk(&mut |i| {
+                        if let crate::ast::Ins::Call { func: crate::ast::Val::Lit(f), .. } = i {
+                            if f == func {
+                                sites += 1;
+                            }
+                        }
+                    });
+                    let in_stream_fold = has_stream_fold(ins);
+                    if sites == 1 && !in_stream_fold {
+                        st.violation("C05", "call-instance-requested-twice", &format!("{} was asked to run the call instance {cl} at steps {:?}", w.peers[p].name, steps), case, json!({"step": steps[1], "history": history_sample(c, 60)}));
+                    } else {
+                        st.inc("repeated_request_classes_not_judged_by_the_site_rule", 1);
+                    }
+                }
+            }
+        }
         if failing {
             // a failing run may legitimately drop results handed in with it (prev data is returned);
             // exact conservation is judged on failure-free histories only
